@@ -50,9 +50,9 @@ ConfigCases == { [kind |-> "config", where |-> w, value |-> v, expect |-> NormDe
 
 (* ---- sample sets --------------------------------------------------------- *)
 \* rows: number of samples in the set (a set of one sample is still a set: shape (1, d))
-SampleCases == { [kind |-> "samples", cls |-> c, ns |-> n, dtype |-> d, fields |-> fs, layout |-> l, via |-> via, rows |-> r] :
+SampleCases == { [kind |-> "samples", cls |-> c, ns |-> n, dtype |-> d, fields |-> fs, layout |-> l, via |-> via, rows |-> r, saves |-> sv] :
                    c \in {"Base", "Samples", "SMC"}, n \in {"numpy", "torch", "jax"}, d \in {"default", "float32", "float64"},
-                   fs \in SUBSET {"ll", "lp", "lq"}, l \in {"flat", "nested"}, via \in {"save"}, r \in {1, 5} }
+                   fs \in SUBSET {"ll", "lp", "lq"}, l \in {"flat", "nested"}, via \in {"save"}, r \in {1, 5}, sv \in {1, 2} }
 \* observables that must be equal after reload
 SampleObservables == {"values", "parameters", "namespace", "dtype", "fields", "beta", "evidence", "class"}
 
@@ -60,15 +60,19 @@ SampleObservables == {"values", "parameters", "namespace", "dtype", "fields", "b
 \* number of stored populations: small counts, and counts whose decimal group names sort
 \* differently as text than as numbers (10 and more, 100 and more)
 HistPops == (0..3) \cup {10, 11, 23, 101}
-HistoryCases == { [kind |-> "history", cls |-> c, npops |-> n, ns |-> ns, real |-> r] :
-                    c \in {"FlowHistory", "SMCHistory"}, n \in HistPops, ns \in {"numpy", "torch", "jax"}, r \in BOOLEAN }
+HistoryCases == { [kind |-> "history", cls |-> c, npops |-> n, ns |-> ns, real |-> r, saves |-> sv] :
+                    c \in {"FlowHistory", "SMCHistory"}, n \in HistPops, ns \in {"numpy", "torch", "jax"}, r \in BOOLEAN, sv \in {1, 2} }
 
 (* ---- transforms and flows ------------------------------------------------ *)
-TransformCases == { [kind |-> "transform", cls |-> c, fitted |-> f, ns |-> n, dtype |-> d] :
+TransformCases == { [kind |-> "transform", cls |-> c, fitted |-> f, ns |-> n, dtype |-> d, saves |-> sv] :
                       c \in {"Composite", "CompositeFull", "FlowTransform", "Affine", "Logit", "Probit", "Periodic", "Identity"},
-                      f \in BOOLEAN, n \in {"numpy", "torch", "jax"}, d \in {"float32", "float64"} }
-FlowCases == { [kind |-> "flow", backend |-> b, trained |-> tr, dtype |-> d, kwargs |-> kw] :
-                 b \in {"zuko", "flowjax"}, tr \in BOOLEAN, d \in {"float32", "float64"}, kw \in BOOLEAN }
+                      f \in BOOLEAN, n \in {"numpy", "torch", "jax"}, d \in {"float32", "float64"}, sv \in {1, 2} }
+\* saves: an object may be written more than once (a checkpoint file, then a result file): saving is a
+\* query, the second file must reload to the same object as the first (2 = the second file is read back).
+\* transform: the flow was constructed with a fitted data transform (logit + affine)
+FlowCases == { [kind |-> "flow", backend |-> b, trained |-> tr, dtype |-> d, kwargs |-> kw, transform |-> t, saves |-> ns] :
+                 b \in {"zuko", "flowjax"}, tr \in BOOLEAN, d \in {"float32", "float64"}, kw \in BOOLEAN,
+                 t \in BOOLEAN, ns \in {1, 2} }
 ResumeCases == { [kind |-> "resume", backend |-> b, dtype |-> d, kwargs |-> kw, periodic |-> p, xp |-> n] :
                    b \in {"verifflow", "zuko", "flowjax"}, d \in {"default", "float32", "float64"}, kw \in BOOLEAN,
                    p \in BOOLEAN, n \in {"numpy", "torch", "jax"} }
